@@ -73,9 +73,8 @@ def ops_census(rep, cases, real) -> None:
         want = {"application/json": "json", "application/x-www-form-urlencoded": "data", "multipart/form-data": "files",
                 "application/octet-stream": "content"}
         for m in media:
-            handled = want.get(m) in pr["btypes"] and not (op["body"] == "json+badschema" and m == "application/vnd.x+json")
-            if m == "application/vnd.x+json":
-                handled = False
+            # accounted per MEDIA TYPE: the generated function has a body variant sent as exactly this media type
+            handled = m in pr.get("bmedia", []) if op["body"] not in ("ref", "refchain") else want.get(m) in pr["btypes"]
             if not handled and not ops.warned_media(pr["texts"], m):
                 rep.violate(f"C07/media-type-unaccounted/{op['body']}", f"request media type {m} is neither handled nor named in a warning",
                             op=op, doc=ops.concretize(op), observed={k: v for k, v in pr.items()})
@@ -159,6 +158,24 @@ def collisions(rep) -> None:
             if len(mods) < 2 and not r["diags"]:
                 rep.violate("C07/two-into-one/class-modules", f"schemas {a!r} and {b!r} collapsed into {mods} without a diagnostic",
                             doc=doc, modules=mods)
+        # the same class name (pascal-casing merges them) with EQUAL and with different content; inline titled models; under both title-prefix settings
+        same = {"type": "object", "properties": {"x": {"type": "string"}}, "required": ["x"]}
+        for k, (a, b, sb, cf) in enumerate([("UserProfile", "user_profile", same, {}), ("UserProfile", "user_profile", {"type": "object", "properties": {"y": {"type": "integer"}}}, {}),
+                                            ("Order-Line", "order_line", same, {}), ("Wrapper1", "Wrapper2", None, {"use_path_prefixes_for_title_model_names": False})]):
+            if sb is None:      # two inline models with one title inside different parents
+                inner = {"title": "Shared Title", "type": "object", "properties": {"x": {"type": "string"}}}
+                doc = gen.mkdoc(schemas={a: {"type": "object", "properties": {"i": inner}}, b: {"type": "object", "properties": {"i": dict(inner)}}})
+                items = 4
+            else:
+                doc = gen.mkdoc(schemas={a: dict(same), b: dict(sb)})
+                items = 2
+            r = gen.generate(doc, d / f"s{k}", **cf)
+            snap = gen.snapshot(d / f"s{k}")
+            mods = [p for p in snap if p.startswith("models/") and p.endswith(".py") and not p.endswith("__init__.py")]
+            rep.count(1, ("samecls", a, b, k))
+            if len(mods) < items and not r["diags"]:
+                rep.violate(f"C07/two-into-one/same-class-name/{'equal' if sb is same or sb is None else 'different'}-content",
+                            f"schemas {a!r} and {b!r} ({items} models) collapsed into {mods} without a diagnostic", doc=doc, modules=mods)
         # two component enums with the same derived class name and equal values are folded by design
         doc = gen.mkdoc(schemas={"my_enum": {"type": "string", "enum": ["a", "b"]}, "MyEnum": {"type": "string", "enum": ["a", "b"]}})
         r = gen.generate(doc, d / "e")
